@@ -110,6 +110,18 @@ class TaskOut(Task, N):
         pass
 
 
+class TaskSelf(Task, N):
+    """its output is one of its own parameters, marked as produced by this task"""
+    x: Param[int] = 0
+    c: Param[N]
+
+    def task_outputs(self, dep):
+        return dep(self.c)
+
+    def execute(self):
+        pass
+
+
 class Pre(LightweightTask, N):
     v: Param[int] = 0
     c: Param[Optional[N]]
@@ -205,5 +217,5 @@ class S2(N):
     b: Param[str] = ""
 
 
-CLASSES = {c.__name__: c for c in [K1, K2, W1, W2, S2, EH, Leaf, Inner, Bag, Req, TaskA, TaskOut, Pre, Init, NewL, OldL, NewT, OldT, V1, V2]}
+CLASSES = {c.__name__: c for c in [K1, K2, W1, W2, S2, EH, TaskSelf, Leaf, Inner, Bag, Req, TaskA, TaskOut, Pre, Init, NewL, OldL, NewT, OldT, V1, V2]}
 ENUMS = {"Color": Color, "Shape": Shape, "Level": Level, "Mode": Mode}
